@@ -775,3 +775,27 @@ func AcquireFinished() {
 		}
 	}
 }
+
+// AppFirst runs application (harness) threads whenever one is enabled and the
+// interceptor's own goroutines only when every application thread is blocked
+// or parked in Quiesce: the adversarial order for "uses caller memory after
+// the call returned". Deterministic.
+type AppFirst struct{}
+
+// Choose implements Strategy.
+//
+//go:norace
+func (AppFirst) Choose(p *Point) int {
+	e := cur
+	for i, id := range p.Opts {
+		if id != ClockID && e.threads[id].app {
+			return i
+		}
+	}
+	return 0
+}
+
+// Pick implements Strategy.
+//
+//go:norace
+func (AppFirst) Pick(n int, what string) int { return 0 }
